@@ -6,6 +6,6 @@ CONSTANTS
   EmitOpts = 1
   EmitNames = {"a.c", "f.S"}
   EmitInputs = 2
-  Devs = {"ArgcDesync", "OneCharName", "EmitQbeFile", "HeaderLinked"}
+  Devs = {"EmitQbeFile"}
 INVARIANTS Inv_Refines Inv_Explained Inv_Emit
 CHECK_DEADLOCK FALSE
